@@ -433,36 +433,81 @@ def _points_of_line(kind, vecs):
 # aliased arguments: the same Python object passed twice is a dependent input
 
 
+def _partitions(k):
+    """All identity patterns of k argument positions (restricted growth strings), e.g. (0, 1, 0): first and third
+    argument are the same Python object."""
+    out = [(0,)]
+    for _ in range(k - 1):
+        out = [p + (x,) for p in out for x in range(max(p) + 2)]
+    return [p for p in out if len(set(p)) < k]  # at least one repeated object
+
+
 def enum_alias(tier, seed):
-    for p in lattice(3, 1)[:8]:
-        yield ("join_pp_2", p)
-        yield ("meet_ll_2", p)
-    for p in lattice(4, 1)[:8]:
-        yield ("join_pp_3", p)
-        yield ("meet_ee_3", p)
-    for pq in [((1, 0, 0, 1), (0, 1, 0, 1)), ((1, 2, -1, 1), (0, 1, 1, 0))]:
-        yield ("join_ll_3", pq)
-        yield ("meet_ll_3", pq)
+    for kind, (op, spec, rk, n) in KINDS.items():
+        k = len(spec)
+        alpha = lattice(3, 1)[:6] if n == 3 else T3()[:7]
+        for pat in _partitions(k):
+            nobj = max(pat) + 1
+            per = [NVEC[spec[pat.index(o)]] for o in range(nobj)]
+            if any(NVEC[spec[i]] != per[o] or spec[i] != spec[pat.index(o)] for i, o in enumerate(pat)):
+                continue  # positions sharing an object must be of the same kind
+            for vs in itertools.product(alpha, repeat=sum(per)):
+                for coll in (False, True):
+                    yield (kind, pat, vs, coll)
 
 
 @family("C02", "aliased", enum_alias)
 def case_alias(ctx, cfg):
     G = _geom()
-    from geometer.exceptions import LinearDependenceError
+    from geometer.exceptions import LinearDependenceError, NotCoplanar
 
-    kind, v = cfg
+    kind, pat, vs, coll = cfg
+    pat = tuple(pat)
+    vs = tuple(tuple(v) for v in vs)
     op, spec, rk, n = KINDS[kind]
-    ctx.state((kind, v))
-    ctx.tally(f"{kind}:same-object-twice")
-    if spec[0] == "L":
-        a = build(G, "L", [tuple(v[0]), tuple(v[1])], "int64", n)
-    else:
-        a = build(G, spec[0], [tuple(v)], "int64", n)
+    nobj = max(pat) + 1
+    objvecs, k = [], 0
+    for o in range(nobj):
+        c = spec[pat.index(o)]
+        objvecs.append(vs[k : k + NVEC[c]])
+        k += NVEC[c]
+    vecs = tuple(v for i in pat for v in objvecs[i])
+    cl = classify(kind, vecs)
+    if cl[0] == "badarg":
+        ctx.skipped += 1
+        return
+    ctx.state((kind, pat, vs, coll))
+    ctx.tally(f"{kind}:pattern{''.join(map(str, pat))}:{cl[0]}")
+    objs = []
+    for o in range(nobj):
+        c = spec[pat.index(o)]
+        if coll:
+            objs.append(build_coll(G, c, [[v, v] for v in objvecs[o]], "int64", n, (2,)))
+        else:
+            objs.append(build(G, c, list(objvecs[o]), "int64", n))
+    args = [objs[i] for i in pat]
     f = G.join if op == "join" else G.meet
-    res, e = ctx.call(f, a, a)
-    ctx.trace()
-    if not isinstance(e, LinearDependenceError):
-        ctx.fail(f"{kind}:aliased:{'no-raise' if e is None else _exc_name(e)}", op, {"kind": kind, "v": v, "same_object": True}, "LinearDependenceError", e if e is not None else res)
+    inputs = {"kind": kind, "identity_pattern": pat, "vectors": vecs, "collection": coll}
+    for form in ("function", "method"):
+        if form == "method":
+            if op == "meet" and len(args) != 2:
+                continue
+            call = (lambda: args[0].join(*args[1:])) if op == "join" else (lambda: args[0].meet(args[1]))
+        else:
+            call = lambda: f(*args)  # noqa: E731
+        res, e = ctx.call(call)
+        ctx.trace()
+        want = {"dep": LinearDependenceError, "skew": NotCoplanar}.get(cl[0])
+        if want is None:
+            if e is not None:
+                ctx.fail(f"{kind}:aliased:general-position-raises:{_exc_name(e)}", op, {**inputs, "form": form}, "a result", e)
+                return
+        elif not isinstance(e, want):
+            ctx.fail(f"{kind}:aliased:{'no-raise' if e is None else _exc_name(e)}", op, {**inputs, "form": form}, want.__name__, e if e is not None else res)
+            return
+        elif coll and want is LinearDependenceError and not np.array_equal(np.asarray(e.dependent_values), np.array([True, True])):
+            ctx.fail(f"{kind}:aliased:dependent_values", op, {**inputs, "form": form}, [1, 1], np.asarray(e.dependent_values).astype(int))
+            return
 
 
 # ---------------------------------------------------------------------------------------------------
